@@ -60,7 +60,7 @@ CHECKS = {
         note="Arithmetic on logarithmic units is documented only through conversions: validity predicate, one known finding (delta_<log unit> undefined).",
         design="5/C06"),
     "C07": dict(
-        technique="bounded-exhaustive enumeration of expression trees x spelling variants with a Python-operator evaluation of the tree as oracle; Hypothesis larger trees in float/Decimal/Fraction registries; mutation-based malformed inputs; audit-hook monitored parsing of hostile and random strings",
+        technique="bounded-exhaustive enumeration of expression trees x spelling variants with a Python-operator evaluation of the tree as oracle; Hypothesis larger trees in float/Decimal/Fraction registries; mutation-based malformed inputs; audit-hook monitored parsing of hostile and random strings; coverage-guided atheris/libFuzzer campaigns (thorough tier) with an audit-hook, a Python-grammar differential and a structural oracle inside the target",
         text="Every tree with <= 3 leaves (<= 4 in thorough) over {2,3,m,s} x {+,-,*,/,//,**} with one optional unary minus is rendered with exactly the "
              "parentheses Python needs, in up to 36 spelling variants (explicit *, blank and parenthesis juxtaposition, ^, superscripts, redundant parentheses, "
              "whitespace) and must parse to the value/type/error class of the tree evaluated with Python operators. Word forms, larger random trees in all three "
